@@ -49,7 +49,14 @@ def apply(path, diff):
 
 
 def cargo_test(path, filt=None):
-    env = dict(os.environ, CARGO_NET_OFFLINE="true", CARGO_TARGET_DIR=TEST_TARGET)
+    tt = TEST_TARGET + os.environ.get("SEED_WORKER", "")
+    env = dict(os.environ, CARGO_NET_OFFLINE="true", CARGO_TARGET_DIR=tt)
+    # the target directory is shared between scratch worktrees: never trust a fingerprint left by another tree
+    fdir = os.path.join(tt, "debug", ".fingerprint")
+    if os.path.isdir(fdir):
+        for n in os.listdir(fdir):
+            if n.startswith("masscanned-"):
+                shutil.rmtree(os.path.join(fdir, n), ignore_errors=True)
     env.pop("RUSTFLAGS", None)
     cmd = ["cargo", "test", "--offline", "--no-fail-fast"] + ([filt] if filt else [])
     rc, out = sh(cmd, cwd=path, env=env)
@@ -129,6 +136,34 @@ def run(d, checks=None, tier="quick", seed=None):
     return out_rows
 
 
+def keep(src, dst_root=None):
+    """Confirm a candidate and, if confirmed, keep it under /verif/seeded/<name>/ with a meta.json."""
+    dst_root = dst_root or os.path.join(VERIF, "seeded")
+    name = os.path.basename(os.path.normpath(src))
+    res = confirm(src)
+    if not res.get("confirmed"):
+        print(json.dumps({"name": name, "kept": False, "confirm": res}))
+        return res
+    dst = os.path.join(dst_root, name)
+    os.makedirs(dst, exist_ok=True)
+    for f in ("patch.diff", "demo.diff", "notes.md"):
+        if os.path.exists(os.path.join(src, f)):
+            shutil.copy(os.path.join(src, f), os.path.join(dst, f))
+    notes = open(os.path.join(src, "notes.md")).read() if os.path.exists(os.path.join(src, "notes.md")) else ""
+    meta = {"property": name.split("-")[0],
+            "origin": "written by an independent sub-agent that was given only the text of the property and a scratch worktree of /repo (nothing from /verif)",
+            "needs_to_manifest": "see notes.md (author's description of the frames / values / configuration / sequence required)",
+            "demonstration": "demo.diff adds a unit test that passes on the clean tree and fails with patch.diff applied",
+            "confirmed_by": {"tool": "tools/seedtest.py confirm (scratch git worktree of /repo under /tmp/mut, removed afterwards)",
+                             "mutant_alone_cargo_test": res.get("mutant_tests"), "mutant_plus_demo": res.get("mutant_with_demo"),
+                             "clean_plus_demo": res.get("clean_with_demo")},
+            "notes_excerpt": notes[:1500]}
+    with open(os.path.join(dst, "meta.json"), "w") as f:
+        json.dump(meta, f, indent=1)
+    print(json.dumps({"name": name, "kept": True}))
+    return res
+
+
 def main():
     if len(sys.argv) < 2:
         print(__doc__)
@@ -136,6 +171,9 @@ def main():
     cmd = sys.argv[1]
     if cmd == "confirm":
         print(json.dumps(confirm(sys.argv[2]), indent=1))
+    elif cmd == "keep":
+        for d in sys.argv[2:]:
+            keep(d)
     elif cmd == "run":
         tier = os.environ.get("SEED_TIER", "quick")
         for r in run(sys.argv[2], sys.argv[3:] or None, tier=tier):
